@@ -25,6 +25,10 @@ def strform(v):
     return str(v)
 
 
+def sentinel(case):
+    return case.get("str_nan") or STR_NAN
+
+
 def scol(case):
     """training column as the hierarchy sees it: every non-string cell replaced by its string form"""
     return [strform(v) for v in decs(case["col"])]
@@ -115,15 +119,15 @@ def wellformed(levels):
     return True
 
 
-def reference(levels, col, mf, unknown):
+def reference(levels, col, mf, unknown, sn=STR_NAN):
     """value -> leader by the level-by-level rule, plain counting with Python floats"""
-    rows = [STR_NAN if isnan(r) else r for r in col]
+    rows = [sn if isnan(r) else r for r in col]
     n = len(rows)
     hv = hier_values(levels)
     leader = {v: v for v in hv}
     for u in unknown:
-        leader[u] = STR_NAN
-    leader[STR_NAN] = STR_NAN
+        leader[u] = sn
+    leader[sn] = sn
     for lv in levels:
         par = level_parent(lv)
         cnt = {}
@@ -199,6 +203,22 @@ class C18(Prop):
                 + ["Low-", "High+", NAN, NAN])
         for kind in ("offset", "partial", "str", "shuffle", "perm"):
             cs.append(self.mk([M0, M1], mcol, 0.15, False, {"index_probe": True}, kind))
+        # custom missing-value sentinel x kind of column x missing cells x policy; values_orders given
+        N0 = [["small", ["1", "2", "small"]], ["big", ["3", "4", "big"]]]
+        N1 = [["all", ["small", "big", "all"]]]
+        nums = [1] * 6 + [2] + [3] * 5 + [4]
+        for drop in (False, True):
+            for flavour, cells in ((None, [str(x) for x in nums]), ("int", nums),
+                                   ("float", [float(x) for x in nums]), ("mixed", nums[:-1] + ["4", "1"])):
+                for tail in ([NAN, NAN], []):
+                    cs.append(self.mk([N0, N1], cells + tail, 0.2, drop, {"sentinel_probe": True}, None,
+                                      flavour, "MISSING"))
+            cs.append(self.mk([N0, N1], [str(x) for x in nums] + [NAN, "zz"], 0.2, drop, {"sentinel_probe": True},
+                              "offset", None, "MISSING", ["3", "big", "1"]))
+            cs.append(self.mk([N0, N1], nums + [NAN], 0.2, drop, {"order_probe": True}, None, "int", None,
+                              ["all", "4", "small", "2"]))
+            cs.append(self.mk([N0, N1], [str(x) for x in nums], 0.2, drop, {"order_probe": True}, None, None, None,
+                              ["3", "nope", "1"]))
         # minimised inputs of earlier findings (always run first)
         import glob
         import json
@@ -208,10 +228,14 @@ class C18(Prop):
             cs.append(json.load(open(fn))["case"])
         return cs
 
-    def mk(self, levels, col, mf, drop, meta=None, index=None, numeric=None):
+    def mk(self, levels, col, mf, drop, meta=None, index=None, numeric=None, str_nan=None, vo=None):
         case = {"levels": [[[k, list(vs)] for k, vs in lv] for lv in levels], "col": encs(col),
                 "mf": float(mf), "drop": bool(drop), "kin": hier_values(levels),
                 "wellformed": wellformed(levels), "meta": meta or {}, "index": index}
+        if str_nan:
+            case["str_nan"] = str_nan           # ChainedDiscretizer(..., str_nan=...) keyword
+        if vo is not None:
+            case["vo"] = list(vo)               # ChainedDiscretizer(..., values_orders={feature: vo})
         if numeric:
             # numeric: raw cells are numbers (or a mix); strtab = the str() table of this case
             case["numeric"] = numeric
@@ -271,7 +295,11 @@ class C18(Prop):
                 cell = sform
             col.append(cell)
         meta = dict(case["meta"], numeric=flavour)
-        return self.mk(levels, col, case["mf"], case["drop"], meta, case.get("index"), flavour)
+        vo = case.get("vo")
+        if vo is not None:
+            vo = [form(v)[0] for v in vo]
+        return self.mk(levels, col, case["mf"], case["drop"], meta, case.get("index"), flavour,
+                       case.get("str_nan"), vo)
 
     def rand_forest(self, rng):
         nlev = rng.choice([2, 2, 3, 3, 4])
@@ -381,7 +409,15 @@ class C18(Prop):
         rng.shuffle(col)
         drop = rng.random() < 0.5
         index = rng.choice([None, None, "offset", "perm", "str", "shuffle", "partial", "offset"])
-        return self.mk(levels, col, mf, drop, {"b": b, "n": len(col), "malformed": bad}, index)
+        str_nan = rng.choice([None, None, None, "MISSING", "MISSING", "n/a", "missing value"])
+        vo = None
+        if rng.random() < 0.3:
+            hv = hier_values(levels)
+            vo = rng.sample(hv, rng.randint(0, len(hv)))      # any order, any subset, no duplicate
+            if rng.random() < 0.25:
+                vo.insert(rng.randint(0, len(vo)), "not_in_hierarchy")
+        return self.mk(levels, col, mf, drop, {"b": b, "n": len(col), "malformed": bad}, index,
+                       None, str_nan, vo)
 
     def rand_dropped(self, rng):
         """no value reaches min_freq: the feature is removed"""
@@ -392,7 +428,7 @@ class C18(Prop):
         mf = min(0.95, (top + rng.choice([0, 1])) / n)      # on the threshold: kept; one above: dropped
         rng.shuffle(col)
         return self.mk(levels, col, mf, rng.random() < 0.5, {"dropped_probe": True},
-                       rng.choice(INDEX_KINDS))
+                       rng.choice(INDEX_KINDS), None, rng.choice([None, "MISSING"]))
 
     def generate(self, rng, tier):
         n = 2400 if tier == "thorough" else 260
@@ -418,7 +454,7 @@ class C18(Prop):
                     i = rng.randrange(len(col2))
                     col2[i] = rng.choice(c["kin"])
                 cases.append(self.mk(c["levels"], col2, c["mf"], c["drop"], {"neighbour": True}, c.get("index"),
-                                     c.get("numeric")))
+                                     c.get("numeric"), c.get("str_nan"), c.get("vo")))
         return cases
 
     # ---- implementation -----------------------------------------------------------------------
@@ -429,6 +465,11 @@ class C18(Prop):
         col = decs(case["col"])
 
         numeric = case.get("numeric")
+        kw = {}
+        if case.get("str_nan"):
+            kw["str_nan"] = case["str_nan"]
+        if case.get("vo") is not None:
+            kw["values_orders"] = {FEAT: list(case["vo"])}
 
         def frame(values):
             values = list(values)
@@ -445,7 +486,7 @@ class C18(Prop):
         try:
             d = ChainedDiscretizer(
                 [FEAT], case["mf"], [{k: list(vs) for k, vs in lv} for lv in case["levels"]],
-                unknown_handling="drop" if case["drop"] else "raise", copy=True)
+                unknown_handling="drop" if case["drop"] else "raise", copy=True, **kw)
         except Exception as e:  # noqa: BLE001
             return {"outcome": C.exc_class(e), "stage": "init"}
         try:
@@ -458,7 +499,8 @@ class C18(Prop):
         # content restricted to strings: raw numbers are stored under their string form
         out = {"outcome": "fitted",
                "content": [[enc(k), encs([v for v in vs if isinstance(v, str)])]
-                           for k, vs in order.content.items()]}
+                           for k, vs in order.content.items()],
+               "keys": encs(list(order))}
         # frames given to transform.  t_train / t_known are also decided by the model (on string
         # forms); t_raw (the raw numeric training frame), t_known_raw (hierarchy values given as
         # numbers where they are number strings) and t_new (a never-seen value) by the oracle only
@@ -480,7 +522,7 @@ class C18(Prop):
         hv = set(case["kin"])
         out = []
         for r in scol(case):
-            if not isnan(r) and r not in hv and r != STR_NAN and r not in out:
+            if not isnan(r) and r not in hv and r != sentinel(case) and r not in out:
                 out.append(r)
         return out
 
@@ -511,6 +553,15 @@ class C18(Prop):
             return True, ""
         levels, mf = case["levels"], case["mf"]
         col = scol(case)
+        sn = sentinel(case)
+        vo = case.get("vo")
+        if vo is not None and any(v not in case["kin"] for v in vo):
+            # values_orders names a value unknown to the hierarchy: refused at construction
+            if out["outcome"] == "assert" and out.get("stage") == "init":
+                return True, ""
+            return False, (f"values_orders holds values unknown to the hierarchy "
+                           f"{[v for v in vo if v not in case['kin']]} but the constructor gave {out['outcome']}"
+                           f" at {out.get('stage', 'fit')}")
         unknown = self.unknown_of(case)
         if self.is_dropped(case):
             return True, ""
@@ -529,12 +580,16 @@ class C18(Prop):
             for v in decs(vs):
                 m[v] = dec(k)
         hv = hier_values(levels)
+        for v in m:
+            if v not in hv and v not in unknown and v != sn:
+                return False, (f"values_orders holds {v!r}, which is neither a hierarchy value, nor a value of the "
+                               f"column, nor the missing-value sentinel {sn!r}")
         for v in hv:
             if v not in m:
                 return False, f"hierarchy value {v!r} is missing from values_orders after fit"
-        ref = reference(levels, col, mf, unknown)
+        ref = reference(levels, col, mf, unknown, sn)
         n = len(col)
-        rows = [STR_NAN if isnan(r) else r for r in col]
+        rows = [sn if isnan(r) else r for r in col]
         for v in hv:
             if m[v] not in ancestors(levels, v):
                 return False, f"leader {m[v]!r} of {v!r} is not an ancestor of {v!r}"
@@ -551,9 +606,9 @@ class C18(Prop):
                 return False, (f"bottom value {v!r} (count {c}/{n}, min_freq {mf}) "
                                f"{'keeps' if m[v] == v else 'loses'} its own modality")
         for u in unknown:
-            if m.get(u) != STR_NAN:
-                return False, f"unknown value {u!r} is not grouped with {STR_NAN}"
-        if STR_NAN in rows and m.get(STR_NAN) != STR_NAN:
+            if m.get(u) != sn:
+                return False, f"unknown value {u!r} is not grouped with {sn}"
+        if sn in rows and m.get(sn) != sn:
             return False, "missing values have no modality of their own"
         frames = [("t_train", col), ("t_known", case["kin"]), ("t_new", None)]
         if case.get("numeric"):
@@ -565,11 +620,11 @@ class C18(Prop):
                 if got != "assert":
                     return False, "transform of a frame holding a never-seen value is not refused with AssertionError"
                 continue
-            filled = [STR_NAN if isnan(r) else r for r in values]
+            filled = [sn if isnan(r) else r for r in values]
             if any(r not in m for r in filled):
                 exp = "assert"
             else:
-                exp = [NAN if m[r] == STR_NAN else m[r] for r in filled]
+                exp = [NAN if m[r] == sn else m[r] for r in filled]
             if isinstance(got, str) or isinstance(exp, str):
                 if got != exp:
                     what = {"t_train": "the training frame", "t_known": "a frame of all hierarchy values",
@@ -593,21 +648,39 @@ class C18(Prop):
     def coq_case(self, case, out):
         sc = C.Scale(0)
 
+        sn = sentinel(case)
+
+        def ren(x):
+            """the model's sentinel is "__NAN__": a custom str_nan is renamed to it in what the
+            implementation returned (and a literal "__NAN__" met there becomes a foreign value)"""
+            if sn != STR_NAN and isinstance(x, str):
+                if x == sn:
+                    return STR_NAN
+                if x == STR_NAN:
+                    return STR_NAN + "(literal)"
+            return x
+
         def v(x):
             return C.cval(x, sc)
 
         def vs(xs):
             return C.clist([v(x) for x in xs])
 
+        def rvs(xs):
+            return C.clist([v(ren(x)) for x in xs])
+
         def dct(d):
             return C.clist([C.cpair(v(k), vs(x)) for k, x in d])
+
+        def rdct(d):
+            return C.clist([C.cpair(v(ren(k)), rvs(x)) for k, x in d])
 
         def tout(t):
             if t == "assert":
                 return "TAssert"
             if t == "internal":
                 return "TInternal"
-            return f"(TOk {vs(decs(t))})"
+            return f"(TOk {rvs(decs(t))})"
 
         oc = out["outcome"]
         if oc == "assert":
@@ -618,10 +691,12 @@ class C18(Prop):
             co = "IDropped"
         else:
             content = [[dec(k), decs(x)] for k, x in out["content"]]
-            co = f"(IFitted {dct(content)} {tout(out['t_train'])} {tout(out['t_known'])})"
+            co = (f"(IFitted {rdct(content)} {rvs(decs(out['keys']))} {tout(out['t_train'])} "
+                  f"{tout(out['t_known'])})")
         levels = C.clist([dct(lv) for lv in case["levels"]])
         return (f"mkC18 {C.cbool(case['wellformed'])} {levels} {vs(scol(case))} {C.cfloat(case['mf'])} "
-                f"{C.cbool(case['drop'])} {vs(case['kin'])} {co}")
+                f"{C.cbool(case['drop'])} {'None' if case.get('vo') is None else '(Some ' + vs(case['vo']) + ')'} "
+                f"{vs(case['kin'])} {co}")
 
     def coq_shards(self, cases, outs):
         shards = []
@@ -649,7 +724,9 @@ class C18(Prop):
                     lvl.setdefault(name, i + 1)
             prof = ",".join(str(sum(1 for x, l in m.items() if x != l and lvl.get(l, 0) == i))
                             for i in range(1, len(case["levels"]) + 1))
-        return (f"{case.get('numeric') or 'str'}|L{len(case['levels'])}|{'drop' if case['drop'] else 'raise'}|u{min(2, len(unknown))}|"
+        vo = case.get("vo")
+        vok = "-" if vo is None else ("bad" if any(x not in case["kin"] for x in vo) else "ok")
+        return (f"{case.get('numeric') or 'str'}|sn{int(bool(case.get('str_nan')))}|vo{vok}|L{len(case['levels'])}|{'drop' if case['drop'] else 'raise'}|u{min(2, len(unknown))}|"
                 f"nan{int(has_nan)}|wf{int(case['wellformed'])}|{out['outcome']}|{prof}")
 
     def finding_signatures(self, case, out, msg):
@@ -658,6 +735,9 @@ class C18(Prop):
             sigs.append("drop_several_unknown_values_asserts")
         if out["outcome"] == "internal" and "empty condition list" in out.get("msg", ""):
             sigs.append("select_empty_condition_list")
+        if (case.get("str_nan") and case.get("numeric") and any(isnan(r) for r in scol(case))
+                and "__NAN__" in (msg + out.get("msg", ""))):
+            sigs.append("custom_str_nan_numeric_missing_seen_as_unknown")
         if out.get("t_raw") == "assert" and self.lost_numbers(case):
             sigs.append("numeric_unknown_lost_at_transform")
         return sigs
@@ -668,7 +748,9 @@ class C18(Prop):
 
         def attempt(levels, col):
             cand = self.mk(levels, col, case["mf"], case["drop"], {"shrunk": True}, case.get("index"),
-                           case.get("numeric"))
+                           case.get("numeric"), case.get("str_nan"),
+                           None if case.get("vo") is None else [v for v in case["vo"]
+                                                                if v in hier_values(levels) or v not in case["kin"]])
             if not cand["wellformed"]:
                 return None
             o = self.run_impl(cand)
@@ -736,7 +818,11 @@ class C18(Prop):
                 boundary += any(x in (b, b - 1) for x in cnt.values())
         return {"outcomes": outc, "levels": depth, "rows_min": min(rows) if rows else 0,
                 "rows_max": max(rows) if rows else 0, "distinct_unknown_values(0,1,2+)": unk,
-                "policy": pol, "row_index_kind": idx, "column_cells": flav, "cases_with_nan": nan_cases,
+                "policy": pol, "row_index_kind": idx, "column_cells": flav,
+                "custom_str_nan": sum(1 for c in cases if c.get("str_nan")),
+                "values_orders_given(consistent,inconsistent)": [
+                    sum(1 for c in cases if c.get("vo") is not None and all(x in c["kin"] for x in c["vo"])),
+                    sum(1 for c in cases if c.get("vo") is not None and any(x not in c["kin"] for x in c["vo"]))], "cases_with_nan": nan_cases,
                 "cases_with_a_count_on_or_one_below_threshold": boundary,
                 "malformed_hierarchies": sum(1 for c in cases if not c["wellformed"])}
 
